@@ -68,7 +68,7 @@ def run(rep, tier, seed, replay=None):
             if new_units:
                 bases.append(b)
                 have |= new_units
-        units_desc.append(f"{fam}: units {fmod.c10_units(bases[0]) if bases else []}")
+        units_desc.append(f"{fam}: units {sorted(have)} over {len(bases)} bases")
         for bi, b in enumerate(bases):
             for r in range(4):
                 vs = vectors(r)
@@ -166,6 +166,7 @@ def run(rep, tier, seed, replay=None):
         attempts = fmod.c10_attempts(b, unit, vlib.sends_of(impl), want_res == "CLEAN")
         got = vlib.result_of(impl)
         rep.count(f"vector-class:{want_res.split(' ')[0]}")
+        rep.count(f"unit:{b.fam}:{unit}")
         if cid in spec:
             line, tags = spec[cid]
             if line != built[cid]:
